@@ -53,6 +53,13 @@ def stepProj : Ev → Option Ev
   | .stepEnd => some .stepEnd
   | _ => none
 
+def isOpn (k : Kind) : Ev → Bool
+  | .opn k' _ => k' = k
+  | _ => false
+def isCls (k : Kind) : Ev → Bool
+  | .cls k' _ _ => k' = k
+  | _ => false
+
 /-- the `log` callbacks of a word, in order -/
 def logsOf (w : List Ev) : List Nat := w.filterMap logProj
 /-- the `selfdestruct` callbacks of a word, in order -/
